@@ -206,10 +206,11 @@ class SensingAgent(Agent):
         Args:
             ephemeris (:class:`._EphemerisMixin`): data object to update this SensingAgent's state with
         """
-        self.eci_state = array(ephemeris.eci)
+        # [NOTE]: Set the time first, the `eci_state` setter derives the ECEF/LLA states at the agent's current epoch.
         self._time = JulianDate(ephemeris.julian_date).convertToScenarioTime(
             self.julian_date_start,
         )
+        self.eci_state = array(ephemeris.eci)
 
     @property
     def eci_state(self) -> ndarray:
